@@ -36,6 +36,8 @@ func closureOwnerType(fn *ssa.Function) string {
 	return ""
 }
 
+var byObj map[*ssa.MakeInterface]*PktClosure
+
 func runEngineA(p *Prog, o *obls) {
 	closures, odd := p.PktClosures()
 	for _, ct := range odd {
@@ -43,16 +45,27 @@ func runEngineA(p *Prog, o *obls) {
 			"a value that is not a function literal is converted to a per-packet func type; the closure rules cannot see its body")
 	}
 	byFn := map[*ssa.Function]*PktClosure{}
+	byObj = map[*ssa.MakeInterface]*PktClosure{}
 	for _, c := range closures {
 		byFn[c.Fn] = c
 		if c.Wrapper != nil {
 			byFn[c.Wrapper] = c
 		}
+		if c.Obj != nil {
+			byObj[c.Obj] = c
+		}
 	}
 	a0BindResults(p, o, byFn)
 	for _, c := range closures {
-		key := funcKey(c.Fn)
+		key := closureKey(c)
 		_, buffering := bufferingInterceptors[closureOwnerType(c.ownerFn())]
+		// a reader closure whose whole body hands the wrapped reader and the buffer to one repository function and returns
+		// what that returns is analysed as that function
+		if !c.Kind.isWriter() && len(nextCalls(p, c)) == 0 {
+			if sub := delegatedReader(p, c); sub != nil {
+				c = sub
+			}
+		}
 		if c.Kind.isWriter() {
 			if !buffering {
 				a1Writer(p, o, c, key)
@@ -102,6 +115,43 @@ func nextCalls(p *Prog, c *PktClosure) []*ssa.Call {
 				return
 			}
 			if p.isNextValue(c, call.Call.Value) {
+				out = append(out, call)
+			}
+		})
+	}
+	if len(out) == 0 && !c.Kind.isWriter() && c.depth < 2 {
+		// the read is made through a repository helper that receives the wrapped reader and the buffer and returns
+		// (n, attributes, error) like Read: the helper is checked as a reader itself, its call is the read site
+		instrsOf(c.Fn, func(in ssa.Instruction) {
+			call, ok := in.(*ssa.Call)
+			if !ok {
+				return
+			}
+			g := call.Call.StaticCallee()
+			if g == nil || !p.InUniverse(g) || g.Blocks == nil || g.Signature.Results().Len() != 3 || !isErrorType(g.Signature.Results().At(2).Type()) {
+				return
+			}
+			params := packetParams(c)
+			var next *ssa.Parameter
+			var bufPar *ssa.Parameter
+			var bufArg ssa.Value
+			for i, a := range call.Call.Args {
+				if i >= len(g.Params) {
+					break
+				}
+				if p.isNextValue(c, a) {
+					next = g.Params[i]
+				}
+				if len(params) > 0 && p.originFullSlice(a) == ssa.Value(params[0]) {
+					bufPar, bufArg = g.Params[i], a
+				}
+			}
+			if next == nil || bufPar == nil {
+				return
+			}
+			sub := &PktClosure{Fn: g, Kind: c.Kind, Next: next, Pkt: []*ssa.Parameter{bufPar}, depth: c.depth + 1, Owner: c.Owner}
+			if pr, _, _ := a2Problems(p, sub); len(pr) == 0 {
+				readBufArg[call] = bufArg
 				out = append(out, call)
 			}
 		})
@@ -578,13 +628,32 @@ func a2Reader(p *Prog, o *obls, c *PktClosure, key string) {
 		o.bad("A2", key, pos, "reader closure does not capture the wrapped reader")
 		return
 	}
+	problems, nEff, nRet := a2Problems(p, c)
+	if len(problems) > 0 {
+		o.bad("A2", key, pos, strings.Join(problems, "; "))
+		return
+	}
+	o.ok("A2", key, pos, fmt.Sprintf("1 read site, %d effect(s) all on the success branch, %d return(s) carry the read's length or its error", nEff, nRet))
+}
+
+// readBufArg: the buffer a read site hands to the wrapped reader (argument 0 of Read, or the helper's buffer argument).
+var readBufArg = map[*ssa.Call]ssa.Value{}
+
+func readBufOf(call *ssa.Call) ssa.Value {
+	if v, ok := readBufArg[call]; ok {
+		return v
+	}
+	return call.Call.Args[0]
+}
+
+// a2Problems is the A2 analysis proper.
+func a2Problems(p *Prog, c *PktClosure) (problems []string, nEff, nRet int) {
 	params := packetParams(c)
 	calls := nextCalls(p, c)
 	isRead := map[ssa.Instruction]bool{}
-	var problems []string
 	for _, call := range calls {
-		if p.originFullSlice(call.Call.Args[0]) != ssa.Value(params[0]) {
-			problems = append(problems, fmt.Sprintf("the wrapped reader is given %s instead of the caller's buffer at %s", valueString(call.Call.Args[0]), p.instrPos(call)))
+		if p.originFullSlice(readBufOf(call)) != ssa.Value(params[0]) {
+			problems = append(problems, fmt.Sprintf("the wrapped reader is given %s instead of the caller's buffer at %s", valueString(readBufOf(call)), p.instrPos(call)))
 		}
 		isRead[call] = true
 	}
@@ -592,7 +661,6 @@ func a2Reader(p *Prog, o *obls, c *PktClosure, key string) {
 		problems = append(problems, "the wrapped reader is never read")
 	}
 	before, _ := pathCounts(c.Fn, func(in ssa.Instruction) bool { return isRead[in] })
-	nRet, nEff := 0, 0
 	for _, b := range c.Fn.Blocks {
 		for _, in := range b.Instrs {
 			// effects after a read must be on the success branch
@@ -680,11 +748,7 @@ func a2Reader(p *Prog, o *obls, c *PktClosure, key string) {
 	for _, w := range writesThrough(p, c.Fn, params, map[*ssa.Function]bool{}) {
 		problems = append(problems, "the read buffer is written: "+w)
 	}
-	if len(problems) > 0 {
-		o.bad("A2", key, pos, strings.Join(problems, "; "))
-		return
-	}
-	o.ok("A2", key, pos, fmt.Sprintf("1 read site, %d effect(s) all on the success branch, %d return(s) carry the read's length or its error", nEff, nRet))
+	return problems, nEff, nRet
 }
 
 func (p *Prog) nilnessAtConstNil(v ssa.Value) bool { return isNilConst(v) }
@@ -940,6 +1004,27 @@ func isChainIface(p *Prog, t types.Type) bool {
 			return true
 		}
 	}
+	// a repository-local interface that is just the Read (or Write) method of a chain interface under another name
+	// (`type attributesReader interface{ Read([]byte, Attributes) (int, Attributes, error) }`)
+	it, ok := t.Underlying().(*types.Interface)
+	if !ok || it.NumMethods() != 1 {
+		return false
+	}
+	if nt := namedOf(t); nt == nil || nt.Obj().Pkg() == nil || !strings.HasPrefix(nt.Obj().Pkg().Path(), modPath) && !strings.HasPrefix(nt.Obj().Pkg().Path(), "fixtures") {
+		return false
+	}
+	m := it.Method(0)
+	for _, n := range []string{"RTPWriter", "RTPReader", "RTCPWriter", "RTCPReader"} {
+		ci := p.rootIface(n)
+		if ci == nil {
+			continue
+		}
+		for i := 0; i < ci.NumMethods(); i++ {
+			if ci.Method(i).Name() == m.Name() && types.Identical(ci.Method(i).Type(), m.Type()) {
+				return true
+			}
+		}
+	}
 	return false
 }
 
@@ -986,6 +1071,23 @@ func twccExtensionCall(p *Prog, call ssa.CallInstruction) bool {
 	if p.backwardReaches(id, isIDField) && usesURI(top) {
 		return true
 	}
+	// (a') the id is a field of the per-packet object (method form), set once where the object is built from such an ID
+	if u, ok := p.origin(id).(*ssa.UnOp); ok && u.Op == token.MUL {
+		if fa, ok := u.X.(*ssa.FieldAddr); ok {
+			if fv := fieldOfAddr(fa); fv != nil {
+				sts := p.storesToField(fv)
+				okAll := len(sts) > 0
+				for _, st := range sts {
+					if !twccIDValue(p, st.Val, st.Parent(), isIDField, usesURI) {
+						okAll = false
+					}
+				}
+				if okAll {
+					return true
+				}
+			}
+		}
+	}
 	// (b) the id is the result of a repository helper that matches the URI and returns the extension's ID
 	okHelper := false
 	p.backwardReaches(id, func(v ssa.Value) bool {
@@ -1011,6 +1113,40 @@ func twccExtensionCall(p *Prog, call ssa.CallInstruction) bool {
 	return okHelper
 }
 
+// twccIDValue: v (in function fn) is the negotiated transport-wide-CC extension id: read from RTPHeaderExtension.ID in
+// a function that matches the URI, or returned by a repository helper that does.
+func twccIDValue(p *Prog, v ssa.Value, fn *ssa.Function, isIDField func(ssa.Value) bool, usesURI func(*ssa.Function) bool) bool {
+	top := fn
+	for top.Parent() != nil {
+		top = top.Parent()
+	}
+	if p.backwardReaches(v, isIDField) && usesURI(top) {
+		return true
+	}
+	ok := false
+	p.backwardReaches(v, func(x ssa.Value) bool {
+		c, isC := x.(*ssa.Call)
+		if !isC {
+			return false
+		}
+		g := c.Call.StaticCallee()
+		if g == nil || !p.InUniverse(g) || !usesURI(g) {
+			return false
+		}
+		for _, b := range g.Blocks {
+			if ret, isR := b.Instrs[len(b.Instrs)-1].(*ssa.Return); isR {
+				for _, r := range ret.Results {
+					if p.backwardReaches(r, isIDField) {
+						ok = true
+					}
+				}
+			}
+		}
+		return ok
+	})
+	return ok
+}
+
 // a4ReadBuffer: after n, _, err := next.Read(B, a) the buffer B is used as data only as B[..:n].
 func a4ReadBuffer(p *Prog, o *obls, c *PktClosure, key string) {
 	pos := p.Pos(c.Fn.Pos())
@@ -1022,9 +1158,9 @@ func a4ReadBuffer(p *Prog, o *obls, c *PktClosure, key string) {
 		return
 	}
 	// the read buffer is whatever the closure hands to the wrapped reader (the caller's buffer, or a local one)
-	B := p.origin(calls[0].Call.Args[0])
+	B := p.origin(readBufOf(calls[0]))
 	for _, call := range calls[1:] {
-		if p.origin(call.Call.Args[0]) != B {
+		if p.origin(readBufOf(call)) != B {
 			o.undecided("A4", key, pos, "several reads into different buffers")
 			return
 		}
@@ -1164,6 +1300,13 @@ func classifyReturns(p *Prog, fn *ssa.Function, par *ssa.Parameter, byFn map[*ss
 		}
 		v := p.origin(ret.Results[0])
 		if mi, ok := v.(*ssa.MakeInterface); ok {
+			if c := byObj[mi]; c != nil {
+				kinds["closure"]++
+				if c.nextSource() != par {
+					*problems = append(*problems, fmt.Sprintf("the object returned at %s does not wrap this method's argument", p.instrPos(ret)))
+				}
+				continue
+			}
 			v = p.origin(mi.X)
 		}
 		switch x := v.(type) {
@@ -1469,4 +1612,74 @@ func reslicedShorter(p *Prog, v ssa.Value) bool {
 		return false
 	}
 	return walk(v)
+}
+
+// delegatedReader: the closure contains exactly one call of a repository function that receives the wrapped reader and
+// the caller's buffer, and every return of the closure returns that call's results unchanged. Returns the callee viewed
+// as the per-packet function (its parameters take the roles of the downstream and the buffer).
+func delegatedReader(p *Prog, c *PktClosure) *PktClosure {
+	if c.depth >= 2 {
+		return nil
+	}
+	params := packetParams(c)
+	var call *ssa.Call
+	n := 0
+	instrsOf(c.Fn, func(in ssa.Instruction) {
+		cl, ok := in.(*ssa.Call)
+		if !ok {
+			return
+		}
+		g := cl.Call.StaticCallee()
+		if g == nil || !p.InUniverse(g) || g.Blocks == nil {
+			return
+		}
+		for _, a := range cl.Call.Args {
+			if p.isNextValue(c, a) {
+				call = cl
+				n++
+				return
+			}
+		}
+	})
+	if n != 1 {
+		return nil
+	}
+	g := call.Call.StaticCallee()
+	var next *ssa.Parameter
+	pkt := make([]*ssa.Parameter, len(params))
+	for i, a := range call.Call.Args {
+		if i >= len(g.Params) {
+			break
+		}
+		if p.isNextValue(c, a) {
+			next = g.Params[i]
+		}
+		for j, pp := range params {
+			if p.originFullSlice(a) == ssa.Value(pp) {
+				pkt[j] = g.Params[i]
+			}
+		}
+	}
+	if next == nil {
+		return nil
+	}
+	for _, x := range pkt {
+		if x == nil {
+			return nil
+		}
+	}
+	// every return hands back the call's results, in order
+	for _, b := range c.Fn.Blocks {
+		ret, ok := b.Instrs[len(b.Instrs)-1].(*ssa.Return)
+		if !ok || b == c.Fn.Recover {
+			continue
+		}
+		for i, r := range ret.Results {
+			ex, ok := p.origin(r).(*ssa.Extract)
+			if !ok || ex.Tuple != ssa.Value(call) || ex.Index != i {
+				return nil
+			}
+		}
+	}
+	return &PktClosure{Fn: g, Kind: c.Kind, Next: next, Pkt: pkt, depth: c.depth + 1, Owner: c.Owner, Conv: c.Conv}
 }
